@@ -18,7 +18,7 @@ _CACHE = {}
 
 def cfg_key(cfg):
     return (cfg["tracks"], tuple(cfg["flags"]), cfg["bins"], tuple(cfg["pitch"]), tuple(cfg["steps"] or ()), tuple(cfg["values"] or ()),
-            tuple(cfg.get("tsr") or (2, 16)))
+            tuple(cfg.get("tsr") or (2, 16)), cfg.get("ppqn"), cfg.get("simplify", True))
 
 
 def make_tok(cfg, cache=True):
@@ -26,10 +26,10 @@ def make_tok(cfg, cache=True):
     k = cfg_key(cfg)
     if cache and k in _CACHE:
         return _CACHE[k]
-    kw = dict(num_tracks=cfg["tracks"], pitch_range=tuple(cfg["pitch"]), velocity_bins=cfg["bins"],
+    kw = dict(num_tracks=cfg["tracks"], pitch_range=tuple(cfg["pitch"]), velocity_bins=cfg["bins"], ppqn=cfg.get("ppqn"),
               time_signature_range=tuple(cfg.get("tsr") or (2, 16)),
               flag_running_values=cfg["flags"][0], flag_fuse_track=cfg["flags"][1], flag_fuse_value=cfg["flags"][2],
-              flag_fuse_velocity=cfg["flags"][3])
+              flag_fuse_velocity=cfg["flags"][3], flag_simplify_time_signature=cfg.get("simplify", True))
     if cfg["steps"]:
         kw["step_sizes"] = list(cfg["steps"])
     if cfg["values"]:
@@ -51,7 +51,8 @@ def rand_cfg(rng, i=None, small_vocab=True, bins=None):
     values = rng.choice(VALUESETS)
     if small_vocab and flags[3] and b >= 16 and pitch[1] - pitch[0] > 20:
         pitch = (60, 72)
-    return {"tracks": tracks, "flags": flags, "bins": b, "pitch": list(pitch), "steps": steps, "values": values}
+    return {"tracks": tracks, "flags": flags, "bins": b, "pitch": list(pitch), "steps": steps, "values": values,
+            "simplify": rng.random() < 0.7}
 
 
 def steps_of(cfg):
